@@ -99,6 +99,8 @@ class DState:
         self.dump = DumpFile()
         self.prefs = Opaque('preferred_units')
         self.data = Opaque('reassembly-records')
+        self.logged = AbsSet('logged_unsupported_pgns', 'int')      # PGNs already reported as unsupported: any content
+        self.log_calls = []
         self.decode_calls = []
         self.add_data_calls = []
         self.units_calls = []
@@ -108,7 +110,7 @@ class DState:
         attrs = {k: v for k, v in self.sets.items()}
         attrs.update({'iso_claim_filter': self.icf, 'build_network_map': self.bnm, 'started_at': self.started, 'source_to_iso_name': self.map,
                       'dump_TextIOWrapper': GV.make([(self.dump_on.t, self.dump), (z3.Not(self.dump_on.t), None)]),
-                      'preferred_units': self.prefs, 'data': self.data, 'logged_unsupported_pgns': Opaque('logged')})
+                      'preferred_units': self.prefs, 'data': self.data, 'logged_unsupported_pgns': self.logged})
         self.decoder = Obj(r.cls('decoder', 'NMEA2000Decoder'), attrs)
         self.attr_names = set(attrs)
         # facts established by the constructor (checked by the __init__ task) and by C01 (the claim definition's id)
@@ -144,6 +146,7 @@ class DState:
             return GV.make([(k == 0, None), (k == 1, False), (k == 2, True)])
 
         def log_unsupported(ex, f, args, kwargs):
+            st.log_calls.append((args[0], list(ex.pc)))
             return None
 
         def fast(ex, f, args, kwargs):
@@ -226,18 +229,19 @@ def explore_decode(r, combined, claim, data_len=8):
 
 class DecodeTask(Task):
     """_decode + _call_decode_function against the filter / identity / dump specification of C10, C11, C15, C16."""
-    def __init__(self, prop, combined, claim):
+    def __init__(self, prop, combined, claim, data_len=8):
         self.prop = prop
         self.combined = combined
         self.claim = claim
-        self.name = f'{prop}:_decode[combined={combined},claim={claim}]'
+        self.data_len = data_len
+        self.name = f'{prop}:_decode[combined={combined},claim={claim}' + (f',data_bytes={data_len}' if data_len != 8 else '') + ']'
 
     def run(self, tier):
         out = {'results': [], 'functions': [], 'notes': [], 'bounded': []}
         r = repo()
         t0 = time.time()
         try:
-            info, results = explore_decode(r, self.combined, self.claim)
+            info, results = explore_decode(r, self.combined, self.claim, self.data_len)
         except V.Unsupported as u:
             out['error'] = f'_decode: outside the modelled subset: {u}'
             from contracts.decoder_scenarios import fallback_results
@@ -249,7 +253,8 @@ class DecodeTask(Task):
             d['inlined_into'] = '_decode' if fn != '_decode' else None
             out['functions'].append(d)
         out['functions'][0]['symex_seconds'] = round(time.time() - t0, 2)
-        base = f'{self.prop}/{DEC}_decode[{"whole-message" if self.combined else "frame"},{"claim" if self.claim else "non-claim"}]'
+        base = f'{self.prop}/{DEC}_decode[{"whole-message" if self.combined else "frame"},{"claim" if self.claim else "non-claim"}' + \
+               (f',data_bytes={self.data_len}' if self.data_len != 8 else '') + ']'
         obs = []
         for pi, p in enumerate(results):
             st = p.ex.ghost['st']
@@ -262,7 +267,7 @@ class DecodeTask(Task):
                                       meta={'note': note, 'scenario': scenario or name, 'prop': self.prop}))
             if p.kind == 'raise' and not (p.exc_name() == 'ValueError' and 'field decoder rejected' in str((p.value.attrs.get('args') or [''])[0])):
                 add('no-exception-of-its-own', False, f'_decode raises {p.exc_name()}: {str((p.value.attrs.get("args") or [""])[0])[:80]}', 'exception')
-            build = {'C10': obligations_c10, 'C11': obligations_c11, 'C15': obligations_c15, 'C16': obligations_c16, 'C08': obligations_c08}[self.prop]
+            build = {'C10': obligations_c10, 'C11': obligations_c11, 'C15': obligations_c15, 'C16': obligations_c16, 'C08': obligations_c08, 'C17': obligations_c17}[self.prop]
             build(self, p, st, add)
         for ob in obs:
             res = discharge(ob, budget(tier))
@@ -437,6 +442,12 @@ def obligations_c15(task, p, st, add):
 
 
 def obligations_c16(task, p, st, add):
+    # the outcome is a function of the configuration, the source map and the input (the filter / identity contract of C10):
+    # in particular it does not depend on which PGNs were reported as unsupported earlier
+    obligations_c10(task, p, st, add)
+    # only PGNs without a decode function are remembered as unsupported (an ignored input of a supported PGN changes nothing)
+    for (pg, pc) in st.log_calls:
+        add('only-unknown-pgns-are-remembered-as-unsupported', z3.Not(KNOWN(int_term(pg))), 'a PGN that has decode functions is recorded as unsupported', 'ignored-input')
     # frame conditions: which decoder state a call may write
     written = set(st.decoder.attrs) - st.attr_names
     add('no-new-decoder-attributes', not written, f'{sorted(written)}')
@@ -448,6 +459,19 @@ def obligations_c16(task, p, st, add):
         add('exception-leaves-the-source-map-unchanged', (not st.map.log) or task.claim, f'{st.map.log}', 'exception-state')
     if not task.claim:
         add('single-frame-path-writes-no-decoder-state', not st.map.log and not st.map.foreign, scenario='map-frame')
+
+
+def obligations_c17(task, p, st, add):
+    """Call site of add_data: every returned message went through add_data exactly once with the decoder's own
+    build_network_map flag (so 'with mapping on every returned message has a hash, with mapping off none' reduces to
+    the contract of add_data)."""
+    returned, msg, fast = outcome_facts(p, st)
+    if not returned:
+        return
+    a = [c for c in st.add_data_calls if c[0] is msg]
+    add('hash-computed-once-per-returned-message', len(a) == 1, f'{len(a)} add_data calls')
+    if len(a) == 1:
+        add('network-map-flag-passed-unchanged', a[0][1][5] is st.bnm, 'add_data does not receive the decoder\'s build_network_map flag itself: the hash then depends on something else', 'hash-flag')
 
 
 def obligations_c08(task, p, st, add):
